@@ -442,6 +442,38 @@ def handshake_state_reset(chk):
     chk.floor('handshake-mutable fields examined', n, 12)
 
 
+def ske_hash_by_version(chk):
+    """Before TLS 1.2 the ServerKeyExchange signature has no algorithm field: ECDSA signs SHA-1 (RFC 4492 5.4), RSA signs
+    MD5 || SHA-1 (RFC 4346 7.4.3).  The two stock certificate policies must therefore announce exactly that algorithm to the
+    handshake code whenever the negotiated version is 1.0 or 1.1 (the peer cannot know anything else was used).
+    Decided by partial evaluation of the choose() callbacks with session.version pinned."""
+    R = 'ske-signature-hash-by-version'
+    cvv = build.const_values(['br_sha1_ID'])
+    n = 0
+    for src, fn, want, what in (('src/ssl/ssl_scert_single_ec.c', 'se_choose', 0xFF00 + cvv['br_sha1_ID'], 'ECDSA with SHA-1'),
+                               ('src/ssl/ssl_scert_single_rsa.c', 'sr_choose', 0xFF00, 'RSA with MD5+SHA-1')):
+        U = oblig.funit(src)
+        if fn not in U.funcs:
+            raise AnalysisBroken('%s vanished from %s' % (fn, src))
+        L = irf.Layouts(U.unit)
+        o_ver = L.field('br_ssl_server_context', 'eng.session.version')[0]
+        o_algo = L.field('br_ssl_server_choices', 'algo_id')[0]
+        loads = U.field_loads(fn, 1, o_ver)
+        if not loads:
+            raise AnalysisBroken('%s: no load of session.version' % fn)
+        for ver in (0x0301, 0x0302):
+            hy = [dict(kind='pin', n=x['n'], value=ver) for x in loads]
+            Fo = U.optimise(fn, hy, ('br_ssl_choose_hash',))
+            okk, det = fold.expect_stores_only(Fo, 2, o_algo, {want}, need=True)
+            n += 1
+            inst = '%s: TLS %s ServerKeyExchange is signed as %s' % (fn, '1.0' if ver == 0x0301 else '1.1', what)
+            if okk:
+                chk.ok(R, inst, src, det)
+            else:
+                chk.violation(R, inst, src, det + ': the signature algorithm announced for this version is not the one the client will verify with', key='%s %s %x' % (R, fn, ver))
+    chk.floor('policy/version cases', n, 4)
+
+
 def run(tier):
     chk = report.Check('C01', tier,
                        'Static clauses of "both sides agree": the cipher-suite table of both handshake interpreters equals the IANA registry '
@@ -460,6 +492,7 @@ def run(tier):
     key_block_layout(chk)
     premaster_version(chk)
     handshake_state_reset(chk)
+    ske_hash_by_version(chk)
     from .. import engio, oblig as _ob
     _ob.run_obligations(chk, engio.progress_obligations())
     engio.ready_state(chk)
